@@ -1,5 +1,6 @@
 (* C12 — --clean never deletes a PEL whose decoded output was not completely written. *)
 From Coq Require Import List Bool.
+From PV Require Gen.CleanGen Spec.PublishedSkeletons Proofs.CleanSkelFacts.
 From PV Require Import Model.Clean Proofs.CleanFacts.
 Import ListNotations.
 
@@ -9,6 +10,33 @@ Theorem C12_json_clean_safe : forall f d clean,
   removed_in f (json_trace f d clean) = true -> d = DOk /\ clean = true /\ json_complete f (json_trace f d clean) = true.
 Proof. exact json_clean_safe. Qed.
 Print Assumptions C12_json_clean_safe.
+
+
+(* ---- the tie to the source text ----
+   Gen/CleanGen.v holds the effect skeletons of parseAndWriteOutput, parseAndPrintPELFile and the `if args.file:` block of main(),
+   extracted on every run (harness/extract_clean.py): conditions on the decode result / --clean / --hex, the with-block of the
+   output file, writes, prints, flushes, removals, returns, try / except, in source order and nesting; any other call that can
+   touch a file or stream would appear as SUnknown.  They equal the published skeletons, which hold no SUnknown ... *)
+Theorem C12_source_skeletons :
+  Gen.CleanGen.ok_clean = true /\
+  Gen.CleanGen.sk_json = Spec.PublishedSkeletons.sk_json /\
+  Gen.CleanGen.sk_print_file = Spec.PublishedSkeletons.sk_print_file /\
+  Gen.CleanGen.sk_main_file = Spec.PublishedSkeletons.sk_main_file /\
+  (CleanSkelFacts.no_unknown Spec.PublishedSkeletons.sk_json && CleanSkelFacts.no_unknown Spec.PublishedSkeletons.sk_print_file &&
+   CleanSkelFacts.no_unknown Spec.PublishedSkeletons.sk_main_file = true).
+Proof. repeat split; reflexivity. Qed.
+Print Assumptions C12_source_skeletons.
+
+(* ... and the programs the theorems above are about are what these skeletons do, for every decode outcome, with and without
+   --clean, document or hex display *)
+Theorem C12_json_prog_is_source : forall d clean,
+  json_prog d clean = fst (run_sk (CleanSkelFacts.is_ok d) clean false false Spec.PublishedSkeletons.sk_json).
+Proof. exact CleanSkelFacts.json_prog_is_skeleton. Qed.
+Print Assumptions C12_json_prog_is_source.
+
+Theorem C12_file_prog_is_source : forall d clean hexm, file_prog d clean = CleanSkelFacts.file_steps d clean hexm.
+Proof. exact CleanSkelFacts.file_prog_is_skeleton. Qed.
+Print Assumptions C12_file_prog_is_source.
 
 (* ... respectively printed and flushed, for --file --clean *)
 Theorem C12_file_clean_safe : forall f d clean,
